@@ -333,6 +333,7 @@ PROPS = {
         "units": [
             rap("reading", "^TestC08Reading$", 40, 400, 6, 16),
             rap("boundaries", "^TestC08Boundaries$", 2, 20, 8, 16, qscale=2),
+            det("tails", "^TestC08Tails$"),
         ],
     },
     "C19": {
